@@ -369,7 +369,6 @@ theorem C06_indiv_transform (k : Kind) (nIds nDim : Nat) (th : Nat → Nat → N
   all_goals simp [indiv]
 
 section scored
-variable [HasErf ℝ]
 
 /-- parameters of a one-dimensional model in the form `th i p d` the C02 / C05 model takes -/
 def th1 (mu sigma : ℝ) : Nat → Nat → Nat → ℝ := fun _ p _ => if p = 0 then mu else sigma
@@ -410,10 +409,9 @@ theorem C06_pop_lognormal_scored (mu sigma x : ℝ) (hs : 0 < sigma) (hx : 0 < x
   rw [Real.log_mul (by positivity) (by positivity), Real.log_mul hs.ne' hs.ne']
   ring
 
-/-- … truncated Gaussian: log of the documented density on `[0, ∞)`, `-inf` below 0; `normCdf`
-    (computed from `erf`) is assumed to be the standard normal cdf at the one point it is used -/
-theorem C06_truncGauss_scored (mu sigma x : ℝ) (hs : 0 < sigma)
-    (hΦ : normCdf (-mu / sigma) = Phi (-mu / sigma)) :
+/-- … truncated Gaussian: log of the documented density on `[0, ∞)`, `-inf` below 0 (full statement:
+    the model's `normCdf`, computed from `erf`, IS the standard normal cdf — `normCdf_real`) -/
+theorem C06_truncGauss_scored (mu sigma x : ℝ) (hs : 0 < sigma) :
     (0 ≤ x → popLL .trunc 1 1 (th1 mu sigma) (fun _ _ => x)
       = .val (Real.log (c06TruncGaussPDF mu sigma x)))
     ∧ (x < 0 → popLL .trunc 1 1 (th1 mu sigma) (fun _ _ => x) = .negInf) := by
@@ -425,7 +423,7 @@ theorem C06_truncGauss_scored (mu sigma x : ℝ) (hs : 0 < sigma)
     unfold c06TruncGaussPDF
     rw [Real.log_div (gaussianPDFReal_pos _ _ _ (sqv_ne_zero hs.ne')).ne' hc.ne']
     simp only [popLL, iany2, iany, isum2, isum_eq, th1]
-    simp [h1, h2, sqv, log_gaussianPDFReal mu sigma _ hs, hΦ]
+    simp [h1, h2, sqv, log_gaussianPDFReal mu sigma _ hs, normCdf_real]
     rw [Real.log_mul (by positivity) (by positivity), Real.log_mul hs.ne' hs.ne']
     ring
   · intro hx
@@ -842,6 +840,147 @@ theorem C06_composed_blocks_independent {Ω : Type} [MeasurableSpace Ω] {P : Me
       simp only [Function.comp]
       rw [C06_composed_entry nIds nS params cov (fs ω) subs k' hk' r' d' hd', entry_float _ hf', hfs]
 
+
+/-! ## the joint law of a whole composed sample -/
+
+/-- index of an entry of a composed sample: sub-model `k`, row `r`, dimension `d` of that sub-model -/
+abbrev EntryIdx (subs : List SubModel) (nS : Nat) :=
+  Σ k : Fin subs.length, Fin nS × Fin (subs[k]).nDim
+
+/-- the (request, position) an entry reads -/
+def primOf (subs : List SubModel) (nS : Nat) (a : EntryIdx subs nS) : ℕ × ℕ :=
+  ((subs[a.1]).reqIdx (reqOff nS subs a.1) a.2.1, (subs[a.1]).posIdx a.2.1 a.2.2)
+
+theorem primOf_injective (subs : List SubModel) (nS : Nat)
+    (hfloat : ∀ k : Fin subs.length, (subs[k]).kind ≠ .pooled ∧ (subs[k]).kind ≠ .hetero) :
+    Function.Injective (primOf subs nS) := by
+  rintro ⟨k, r, d⟩ ⟨k', r', d'⟩ h
+  simp only [primOf, Prod.mk.injEq] at h
+  obtain ⟨hq, hp⟩ := h
+  have hkk : k = k' := by
+    by_contra hne
+    obtain ⟨i, hi, e⟩ := reqIdx_lt (subs[k]) (hfloat k).1 nS (reqOff nS subs k) r r.2
+    obtain ⟨i', hi', e'⟩ := reqIdx_lt (subs[k']) (hfloat k').1 nS (reqOff nS subs k') r' r'.2
+    rw [e, e'] at hq
+    exact C06_composed_requests_disjoint nS subs k k' k.2 k'.2 (fun h => hne (Fin.ext h)) i i' hi hi' hq
+  subst hkk
+  have : r = r' ∧ d = d' := by
+    unfold SubModel.reqIdx at hq
+    unfold SubModel.posIdx at hp
+    by_cases hc : (subs[k]).nCov = 0
+    · simp only [hc, if_true] at hq hp
+      obtain ⟨h1, h2⟩ := pos_inj d.2 d'.2 hp
+      exact ⟨Fin.ext h1, Fin.ext h2⟩
+    · simp only [hc, if_false] at hq hp
+      obtain ⟨_, h2⟩ := pos_inj d.2 d'.2 hp
+      exact ⟨Fin.ext (by omega), Fin.ext h2⟩
+  obtain ⟨rfl, rfl⟩ := this
+  rfl
+
+
+/-- the parameters (covariate-shifted, of the entry's own row) an entry uses -/
+noncomputable def entryMap (nIds : Nat) (params : Nat → ℝ) (cov : Nat → Nat → ℝ)
+    (subs : List SubModel) (nS : Nat) (a : EntryIdx subs nS) : ℝ → ℝ :=
+  let s := subs[a.1]
+  let th := subTh s nIds params cov (parOff nIds subs a.1) (smpCovOff subs a.1)
+  popOne s.kind (th (s.parRow a.2.1) 0 a.2.2) (th (s.parRow a.2.1) 1 a.2.2)
+
+/-- C06 (composed, joint law): for ANY list of Gaussian / log-normal / truncated-Gaussian sub-models
+    (centred or not, covariate-wrapped or not, any dimensions, any number of samples), if the float
+    results of the requests form an independent family indexed by (request, position), then
+    ALL entries of the composed sample are mutually independent, each entry is the sub-model's
+    one-draw transformation (at its own, covariate-shifted parameters) of its own primitive, and
+    hence the joint law of the whole sample is the PRODUCT of the entry laws. -/
+theorem C06_composed_joint_law {Ω : Type} [MeasurableSpace Ω] {P : Measure Ω} [IsProbabilityMeasure P]
+    (W : ℕ × ℕ → Ω → ℝ) (hind : iIndepFun W P) (hW : ∀ i, Measurable (W i))
+    (fs : Ω → List (Ful ℝ)) (hfs : ∀ ω q i, flAt (fs ω) q i = W (q, i) ω)
+    (nIds nS : Nat) (params : Nat → ℝ) (cov : Nat → Nat → ℝ) (subs : List SubModel)
+    (hfloat : ∀ k : Fin subs.length, (subs[k]).kind ≠ .pooled ∧ (subs[k]).kind ≠ .hetero) :
+    let entry : EntryIdx subs nS → Ω → ℝ := fun a ω =>
+      composedEntry nIds nS params cov (fs ω) subs 0 0 0 0 a.2.1 (smpDimOff subs a.1 + a.2.2)
+    iIndepFun entry P
+    ∧ (∀ a, P.map (entry a)
+        = (P.map (W (primOf subs nS a))).map (entryMap nIds params cov subs nS a))
+    ∧ P.map (fun ω a => entry a ω) = Measure.pi (fun a => P.map (entry a)) := by
+  intro entry
+  have hentry : ∀ a ω, entry a ω = entryMap nIds params cov subs nS a (W (primOf subs nS a) ω) := by
+    intro a ω
+    simp only [entry, entryMap, primOf]
+    rw [C06_composed_entry nIds nS params cov (fs ω) subs a.1 a.1.2 a.2.1 a.2.2 a.2.2.2]
+    exact (entry_float (subs[a.1]) (hfloat a.1) _ (fs ω) _ _ _).trans (by rw [hfs]; rfl)
+  have hmeas : ∀ a, Measurable (entryMap nIds params cov subs nS a) := fun a =>
+    measurable_popOne _ _ _
+  have hI : iIndepFun entry P := by
+    have h1 := hind.precomp (primOf_injective subs nS hfloat)
+    have h2 := h1.comp (fun a => entryMap nIds params cov subs nS a) hmeas
+    refine h2.congr ?_
+    intro a
+    exact Filter.Eventually.of_forall fun ω => (hentry a ω).symm
+  have hfun : ∀ a, entry a = entryMap nIds params cov subs nS a ∘ W (primOf subs nS a) := by
+    intro a; funext ω; exact hentry a ω
+  refine ⟨hI, ?_, ?_⟩
+  · intro a
+    rw [hfun a, Measure.map_map (hmeas a) (hW _)]
+  · refine (iIndepFun_iff_map_fun_eq_pi_map ?_).1 hI
+    intro a
+    rw [hfun a]
+    exact ((hmeas a).comp (hW _)).aemeasurable
+
+
+/-- every column of the composed sample belongs to exactly one sub-model's block -/
+theorem C06_composed_columns_cover (subs : List SubModel) :
+    ∀ dg, dg < totalDim subs →
+      ∃ k, ∃ _ : k < subs.length, ∃ d, d < (subs[k]).nDim ∧ dg = smpDimOff subs k + d := by
+  induction subs with
+  | nil => intro dg h; simp [totalDim] at h
+  | cons s ss ih =>
+    intro dg h
+    by_cases hlt : dg < s.nDim
+    · exact ⟨0, by simp, dg, by simpa using hlt, by simp [smpDimOff]⟩
+    · have h' : dg - s.nDim < totalDim ss := by
+        simp only [totalDim, List.map_cons, List.sum_cons] at h ⊢; omega
+      obtain ⟨k, hk, d, hd, he⟩ := ih (dg - s.nDim) h'
+      refine ⟨k + 1, by simpa using hk, d, by simpa using hd, ?_⟩
+      simp only [smpDimOff, List.take_succ_cons, List.map_cons, List.sum_cons] at he ⊢
+      omega
+
+/-! ## sample followed by `compute_individual_parameters` for the heterogeneous model -/
+
+/-- C06 (what the property demands, variant `intended`): the transform leaves the sampled rows
+    unchanged, so the individual parameters have the sampled law `C06_hetero_law` -/
+theorem C06_hetero_transform (nIds nRows : Nat) (th eta : Nat → Nat → ℝ) (r d : Nat) :
+    heteroPsi .intended nIds nRows th eta r d = eta r d := rfl
+
+/-- C06 for the code as it is (7e1e7bd): the drawn rows are handed on whenever their number differs
+    from `n_ids`, and otherwise exactly when row `r` drew "its own" individual `r` -/
+theorem C06_hetero_transform_partial (nIds nRows : Nat) (th : Nat → Nat → ℝ) (drawn : Nat → Nat)
+    (r d : Nat) (h : nRows ≠ nIds ∨ drawn r = r) :
+    heteroPsi .repaired nIds nRows th (fun r d => th (drawn r) d) r d = th (drawn r) d := by
+  unfold heteroPsi
+  rcases h with h | h
+  · simp [h]
+  · split <;> simp [h]
+
+/-- C06 still FAILS for the code as it is when exactly `n_ids` rows are drawn: two individuals with
+    values 1 and 2, two samples; `sample` drew individual 1 for row 0 (value 2), the transform hands
+    back the stored individual 0 (value 1). (`PopulationPredictiveModel.sample` keeps the drawn rows
+    itself since 7e1e7bd; `compute_individual_parameters` cannot tell the two uses apart.) -/
+theorem C06_hetero_transform_counterexample :
+    let th : Nat → Nat → ℝ := fun i _ => (i : ℝ) + 1
+    let drawn : Nat → Nat := fun _ => 1
+    let eta : Nat → Nat → ℝ := fun r d => th (drawn r) d
+    heteroPsi .repaired 2 2 th eta 0 0 ≠ eta 0 0 := by
+  simp [heteroPsi]
+
+/-- the pre-fix behaviour (before 7e1e7bd) failed for every number of rows: the stored row is handed
+    back whatever was drawn, and `n_ids` rows are returned for 5 drawn ones -/
+theorem C06_hetero_transform_legacy_counterexample :
+    let th : Nat → Nat → ℝ := fun i _ => (i : ℝ) + 1
+    let drawn : Nat → Nat := fun _ => 1
+    let eta : Nat → Nat → ℝ := fun r d => th (drawn r) d
+    heteroPsi .legacy 2 5 th eta 0 0 ≠ eta 0 0 ∧ heteroPsiRows .legacy 2 5 ≠ 5
+      ∧ heteroPsi .repaired 2 5 th eta 0 0 = eta 0 0 ∧ heteroPsiRows .repaired 2 5 = 5 := by
+  simp [heteroPsi, heteroPsiRows]
 
 /-! ## `get_mean_and_std` -/
 
